@@ -173,15 +173,16 @@ class Prop:
         for c in SCALARS:
             for kind in SKINDS:
                 for side in "LR":
-                    if quick and rng.random() > 0.5:
-                        continue
-                    op = sops[k % 5]; k += 1
-                    if op == "div" and c[0] == 0:
-                        op = "smul"
-                    N = rng.randint(1, 3); shape = [rng.choice([1, 2, 3]) for _ in range(N)]
-                    a = rand_tensor_json(rng, shape, maxr=3)
-                    mk([a], [op, list(c), side, kind, ["leaf", 0]], op=op, kind="scalar", skind=kind, side=side,
-                       scalar="%d/%d" % c)
+                    for op in sops:
+                        if op == "div" and c[0] == 0:
+                            continue
+                        if op in ("rsub", "subs", "div") and side == "L":
+                            continue      # these forms fix the side themselves
+                        N = 1 + k % 3; k += 1
+                        shape = [rng.choice([1, 2, 3]) for _ in range(N)]
+                        a = rand_tensor_json(rng, shape, maxr=2)
+                        mk([a], [op, list(c), side, kind, ["leaf", 0]], op=op, kind="scalar", skind=kind, side=side,
+                           scalar="%d/%d" % c)
         mk([rand_tensor_json(rng, [2, 2], maxr=2)], ["neg", ["leaf", 0]], op="neg", kind="scalar")
         # expression trees
         def tree(d, nleaf):
@@ -251,8 +252,8 @@ class Prop:
         if res["dtype"] != "float64":
             return False, "result dtype %s for float64 operands" % res["dtype"]
         a = np.array(res["dense"]); b = np.array(exp["dense"])
-        if a.size and np.max(np.abs(a - b)) > 1e-9 * max(1.0, np.max(np.abs(b))):
-            return False, "values differ by %g" % np.max(np.abs(a - b))
+        if not close(a, b, 1e-9):
+            return False, "values differ (max abs difference %s)" % (np.max(np.abs(a - b)) if a.size else 0)
         return True, ""
 
     def nontrivial(self, case, res):
